@@ -126,6 +126,11 @@ func chainFor(kind, defect string) *pki.Chain {
 		}
 	case "ca-expired-at-signing-time":
 		ca.NotAfter = time.Date(2020, 1, 1, 0, 0, 0, 0, time.UTC)
+	case "leaf-names-issuer-in-another-string-type":
+		// right key, right attributes, another ASN.1 string type: another Name
+		leaf.IssuerDER = pki.NameDER([]pki.ATV{{OID: pki.OIDCN, Value: "c16-ca", Tag: 12}})
+	case "ca-names-issuer-in-another-string-type":
+		ca.IssuerDER = pki.NameDER([]pki.ATV{{OID: pki.OIDCN, Value: "c16-root", Tag: 12}})
 	case "root-expired-at-signing-time":
 		root.NotAfter = time.Date(2020, 1, 1, 0, 0, 0, 0, time.UTC)
 	case "root-not-yet-valid-at-signing-time":
@@ -146,7 +151,8 @@ func chainFor(kind, defect string) *pki.Chain {
 
 var chainDefects = []string{"leaf-ca", "leaf-ku-absent", "leaf-ku-noncritical", "leaf-ku-certsign", "leaf-ku-keyencipherment", "leaf-eku-serverauth", "leaf-eku-timestamping",
 	"ca-no-certsign", "ca-not-ca", "ca-pathlen-0-above-intermediate", "root-missing", "intermediate-missing", "order-swapped", "wrong-issuer-key", "duplicate-root", "ca-expired-at-signing-time",
-	"root-expired-at-signing-time", "root-not-yet-valid-at-signing-time", "ca-not-yet-valid-at-signing-time"}
+	"root-expired-at-signing-time", "root-not-yet-valid-at-signing-time", "ca-not-yet-valid-at-signing-time",
+	"leaf-names-issuer-in-another-string-type", "ca-names-issuer-in-another-string-type"}
 
 func (c *ctx) setChain(ch *pki.Chain) {
 	c.chain = ch
@@ -266,6 +272,12 @@ func buildChanges() []change {
 		ok := otherKind(c.b.Kind)
 		c.remote.Spec = sims.KeySpecOf(ok)
 		c.remote.Key = pki.K(ok, 0)
+	})
+	add("attr-repeated-key-first-value-nil", always, func(c *ctx) {
+		c.req.ExtendedSignedAttributes = append(c.req.ExtendedSignedAttributes, signature.Attribute{Key: "dup", Value: nil}, signature.Attribute{Key: "dup", Value: "x"})
+	})
+	add("attr-repeated-key-both-values-nil", always, func(c *ctx) {
+		c.req.ExtendedSignedAttributes = append(c.req.ExtendedSignedAttributes, signature.Attribute{Key: "dup", Critical: true, Value: nil}, signature.Attribute{Key: "dup", Value: nil})
 	})
 	add("attr-repeated-key", always, func(c *ctx) {
 		c.req.ExtendedSignedAttributes = append(c.req.ExtendedSignedAttributes, signature.Attribute{Key: "dup", Value: 1}, signature.Attribute{Key: "dup", Critical: true, Value: 2})
